@@ -26,6 +26,10 @@ def _fmt_group(intpart, sep):
 def render_amount(value, style, decimal='.'):
     """Render a number the way a bank might.  style in plain|thousands|currency|paren|space."""
     neg = value < 0
+    if style == 'plain3':
+        # three decimals (fuel, FX, some currencies): written and read exactly
+        mills = int(round(abs(value) * 1000))
+        return ('-' if neg else '') + '%d%s%03d' % (mills // 1000, decimal, mills % 1000)
     cents = int(round(abs(value) * 100))
     ip, fp = divmod(cents, 100)
     tsep = ',' if decimal == '.' else '.'
@@ -73,6 +77,9 @@ def gen_rows(rng, n, first_id=1, year=2025, allow_rich=False, neg_rate=0.2):
                           float(rng.randint(1, 500))])
         if rng.random() < neg_rate:
             val = -val
+        three = rng.random() < 0.12
+        if three:
+            val = rng.choice([rng.randint(1, 9) / 1000.0, rng.randint(1001, 99999) / 1000.0, 1.254, 0.004]) * (-1 if val < 0 else 1)
         rows.append({
             'id': rid,
             'date': [year, month, day],
@@ -84,6 +91,8 @@ def gen_rows(rng, n, first_id=1, year=2025, allow_rich=False, neg_rate=0.2):
             'caps': {},
             'loc': rng.choice(['', 'WA', 'Seattle', 'NY']),
         })
+        if three:
+            rows[-1]['style'] = 'plain3'
     return rows
 
 
@@ -293,4 +302,4 @@ def expected_txn(lay, row, source):
     if lay['extras']:
         field = {k: row['caps'].get(k, '').strip() for k in lay['extras']}
     return {'id': row['id'], 'date': '%04d-%02d-%02d' % (y, m, d), 'description': desc,
-            'amount': round(v, 2), 'source': source, 'field': field}
+            'amount': round(v, 6), 'source': source, 'field': field}
